@@ -42,7 +42,7 @@ def check_sort(ctx):
         if not mf_present:
             info.attrs['model_fluxes'] = None
         I.call(srt, [], selfv=info)
-        order = mk_fn('argsort', B(M, sym('chi2', M)))
+        order = alg.array_fn('argsort', M, sym('chi2', M))
         tag = '' if mf_present else ' (no predicted fluxes stored)'
         for k in per_fit:
             inst = 'sort: %s%s' % (k, tag)
